@@ -237,10 +237,27 @@ class Gen:
         if t == "boolean":
             return (True,)
         if t == "integer":
-            lo = s.get("minimum", 0)
-            if "format" in s:
-                lo = max(lo, INT_FORMATS[s["format"]][0])
-            return (max(lo, 1) if s.get("maximum", 10) >= max(lo, 1) else lo,)
+            # a VALID default: effective bounds from the inclusive and exclusive forms and the format, multipleOf
+            lo, hi = -10 ** 6, 10 ** 6
+            if s.get("format") in INT_FORMATS:
+                lo, hi = INT_FORMATS[s["format"]]
+            if "minimum" in s:
+                lo = max(lo, s["minimum"])
+            if "maximum" in s:
+                hi = min(hi, s["maximum"])
+            if "exclusiveMinimum" in s:
+                lo = max(lo, s["exclusiveMinimum"] + 1)
+            if "exclusiveMaximum" in s:
+                hi = min(hi, s["exclusiveMaximum"] - 1)
+            if "const" in s:
+                return (s["const"],)
+            m = s.get("multipleOf")
+            for c in (1, lo, hi, 0):
+                if lo <= c <= hi and float(c).is_integer() and (not m or c % m == 0):
+                    return (int(c),)
+            if m and lo <= -(-lo // m) * m <= hi:
+                return (int(-(-lo // m) * m),)
+            return None
         if t == "string" and len(s) == 1:
             return ("dflt",)
         if t == "array" and isinstance(s.get("items"), dict) and "minItems" not in s:
